@@ -697,6 +697,11 @@ class Tensor:
 # autograd bookkeeping hooks (filled in by tv.autograd when used) ---------------
 def _mk(a, dt, parents=(), view=False):
     """make a result tensor; propagate 'tracked' flag (grad_fn) from parents."""
+    if not _GRAD_MODE[0] and dt.cat >= 2:
+        from . import autograd
+        if autograd.ENABLED and _py_any(_isinstance(p, Tensor) and (p.requires_grad or p.grad_fn is not None) for p in parents):
+            # computed under no_grad from tracked operands: same values, but no longer a function of the leaves for differentiation
+            a = autograd.cut_array(a)
     t = Tensor(a, dt)
     if _GRAD_MODE[0]:
         for p in parents:
